@@ -237,6 +237,31 @@ def _once(case, acc, tree, labels):
                 raise Violation("findall-vs-preorderiter", "with callbacks that depend on each other (first %d matches) %s.findall returns %s, PreOrderIter yields %s" % (limit, func.__module__, labels.labels(got), labels.labels(want)))
     acc.tag("interdependent_callback_comparisons", 6)
 
+    # a callback that fails with TypeError on its second call only: cachedsearch gives the same result OR ERROR as search
+    def flaky():
+        calls = [0]
+
+        def pred(node):
+            calls[0] += 1
+            if calls[0] == 2:
+                raise TypeError("not ready yet")
+            return id(node) not in hide_ids
+
+        return pred
+
+    def attempt(func, **kw):
+        try:
+            return ("ok", labels.labels(func(start, maxlevel=maxlevel, **kw)) if func.__name__ == "findall" else labels.label(func(start, maxlevel=maxlevel, **kw)))
+        except Exception as exc:  # noqa: BLE001 - the exception class is the compared outcome
+            return ("raised", type(exc).__name__)
+
+    for name_ in ("findall", "find"):
+        for which in ("filter_", "stop"):
+            plain = attempt(getattr(search, name_), **{which: flaky()})
+            cached = attempt(getattr(cachedsearch, name_), **{which: flaky()})
+            if plain != cached:
+                raise Violation("cachedsearch-" + name_, "with a %s that raises TypeError on its second call, search.%s gives %r and cachedsearch.%s gives %r" % (which, name_, plain, name_, cached))
+
     # by attribute
     name, value = case["by"]["name"], val(case["by"]["value"])
     region = refs.restricted(refs.preorder(start), refs.admitted_ids(start, set(), maxlevel), set())
